@@ -1,4 +1,12 @@
 (* C09 — a merged store equals the concatenation of its input stores.  Property theorems only. *)
+(* Scope of the model these theorems are about (shared by C07 C08 C09 C10):
+   - ONE live TrajectoryStore handle at a time; a merge runs with no handle open;
+   - the refinement theorem is about worlds whose file system holds store files only ([Inv]: no merged directory
+     elsewhere); merged directories are covered by the merge / merged-read theorems (C09, C10);
+   - a fault is an exception raised IN FRONT of a file-system call (the call has no effect); os.rename is atomic and
+     stays on one device; a crash inside rename / json.dump is not modelled;
+   - payloads are reduced to a tag, a flight id, the identity of the field sets and a size; the contents of the other
+     fields are C03's subject. *)
 From Coq Require Import ZArith List Bool.
 From AV Require Import model.Store_Model proofs.Store_Proofs proofs.Store_Refine
                        proofs.Store_MergeProofs proofs.Store_MergedReads proofs.Store_Corollaries.
@@ -16,6 +24,7 @@ Theorem C09_merged_is_concat :
       step fixed_cfg (mkW fs' None) (OpenR outp cp) = (mkW fs' (Some h), OUnit) /\
       flookup outp fs' = Some (NDir d) /\
       ident d = all_indexed fs0 ins /\
+      merged_parts fs' outp = Some parts /\ Forall file_ok parts /\ mh_ok outp d parts h /\
       forall sg ops, reads_ok parts ops ->
         map coarse (snd (run fixed_cfg (mkW fs' (Some h)) ops))
         = snd (spec_run (concat_world outp d parts sg cp []) ops).
@@ -60,6 +69,47 @@ Theorem C09_getitem_with_associated_stores :
        end) /\ mh_ok outp d parts (set_cache h c).
 Proof. intros fs outp d parts Ld Hp Hw h i ps. exact (geta_merged fs outp d parts Hp Hw h i ps). Qed.
 Print Assumptions C09_getitem_with_associated_stores.
+
+(* liveness: a merge whose arguments meet the preconditions (existing .nc inputs with distinct names, a free
+   .aeic-store output, equal field sets, all-or-none identification) and that suffers no fault SUCCEEDS and leaves
+   the complete directory — a merge that refused everything would not satisfy this *)
+Theorem C09_merge_succeeds_when_preconditions_hold :
+  forall fs0 outp ins, Pre fs0 outp ins ->
+    snd (merge_run fixed_cfg fs0 outp ins None) = OUnit /\
+    Complete fs0 outp ins (fst (merge_run fixed_cfg fs0 outp ins None)).
+Proof. exact merge_succeeds. Qed.
+Print Assumptions C09_merge_succeeds_when_preconditions_hold.
+
+(* end to end: a base family and an associated family merged separately (any splits), the base directory opened: for
+   every handle state and every i, [i] with the associated directory answers the i-th payload of the base concatenation
+   together with the i-th record of the associated concatenation — the i-th associated record belongs to the i-th
+   trajectory when both families hold the same flights in the same order *)
+Theorem C09_merged_families_aligned :
+  forall fs0 outb inb fs1 outa ina fs2 cp,
+    inputs_wf fs0 inb ->
+    merge_run fixed_cfg fs0 outb inb None = (fs1, OUnit) ->
+    merge_run fixed_cfg fs1 outa ina None = (fs2, OUnit) ->
+    outb <> outa -> ~ In outb ina ->
+    let pb := map (input_file fs0) inb in
+    let pa := map (input_file fs1) ina in
+    exists h d,
+      step fixed_cfg (mkW fs2 None) (OpenR outb cp) = (mkW fs2 (Some h), OUnit) /\ mh_ok outb d pb h /\
+      forall h', mh_ok outb d pb h' -> forall i, exists c,
+        step fixed_cfg (mkW fs2 (Some h')) (GetA i [outa]) =
+        (mkW fs2 (Some (set_cache h' c)),
+         match nth_error (concat (map f_items pb)) i, nth_error (concat (map f_items pa)) i with
+         | Some x, Some y => OItemA (tag x) [tag y]
+         | _, _ => OErr EIndex
+         end) /\ mh_ok outb d pb (set_cache h' c).
+Proof. exact merged_families_aligned. Qed.
+Print Assumptions C09_merged_families_aligned.
+
+Example C09_associated_nonvacuous :
+  snd (run fixed_cfg empty_world hist_assoc) =
+  [OUnit; OIdx 0; OIdx 1; OIdx 2; OUnit; OUnit; OIdx 0; OIdx 1; OUnit; OUnit; OUnit; OUnit; OUnit;
+   OUnit; OItemA 10 [110%Z]; OItemA 11 [111%Z]; OItemA 12 [112%Z]; OItemA 13 [113%Z]; OItemA 14 [114%Z]; OErr EIndex;
+   OLen 5; OUnit].
+Proof. exact assoc_demo. Qed.
 
 (* what a completed merge leaves: the inputs moved (in order) into the directory, the merged index iff
    all inputs are identified, metadata listing (name, length) in order; nothing else touched *)
